@@ -265,30 +265,96 @@ fn assert_left(t: &AllocTracker, expected: usize) {
 // @prop C13
 // @tier quick
 // @unit jxl_grid::AllocTracker::{with_limit,alloc,expand_limit,shrink_limit} jxl_grid::AllocHandle::{drop,tracker}
-// @sym pre-state: any tracker state with budget L < 2^24 and two live handles of any sizes a (u8 elements) and b (i32 elements) that fit; then ONE arbitrary operation from {alloc::<u8|i32|[f32;8]>(n) directly or through handle.tracker(), drop of either handle, expand_limit(n), shrink_limit(n)}, n < 2^20
+// @sym pre-state: any tracker state with budget L < 2^24 and two live handles of any sizes a (u8 elements) and b (i32 elements) that fit; then ONE operation: alloc_f32x8 (the six operations are six harnesses; each is a separate solver query), n < 2^20
 // @bound inductive step: arbitrary reachable pre-state (bytes_left + live handle sizes == budget) and one operation, so call histories of any length are covered; sizes below 2^25 (usize overflow of count*size for absurd counts is outside); unwind 3 covers the compare-exchange retry loop (unwinding assertion checked)
 // @oblig after the operation bytes_left is exactly what the accounting rule says (observed with a symbolic shrink probe): a failing alloc returns Err with the requested size and changes nothing; tracked total never exceeds the budget; after dropping every handle the whole budget is available again and not one byte more (no leak, no double free)
 #[kani::proof]
 #[kani::unwind(3)]
-pub fn c13_tracker_step_from_any_state() {
-    // the operation is enumerated concretely (one solver case each), everything else is symbolic
-    tracker_step_case(0);
-    tracker_step_case(1);
-    tracker_step_case(2);
-    tracker_step_case(3);
-    tracker_step_case(4);
-    tracker_step_case(5);
+pub fn c13_tracker_step_alloc_f32x8() {
+    let o = tracker_step_case(0);
+    kani::cover!(o == 1, "alloc succeeds");
+    kani::cover!(o == 2, "alloc refused while some budget is left");
 }
 
-fn tracker_step_case(op: u8) {
+// @prop C13
+// @tier quick
+// @unit jxl_grid::AllocTracker::{with_limit,alloc,expand_limit,shrink_limit} jxl_grid::AllocHandle::{drop,tracker}
+// @sym pre-state: any tracker state with budget L < 2^24 and two live handles of any sizes a (u8 elements) and b (i32 elements) that fit; then ONE operation: alloc_via_handle_tracker (the six operations are six harnesses; each is a separate solver query), n < 2^20
+// @bound inductive step: arbitrary reachable pre-state (bytes_left + live handle sizes == budget) and one operation, so call histories of any length are covered; sizes below 2^25 (usize overflow of count*size for absurd counts is outside); unwind 3 covers the compare-exchange retry loop (unwinding assertion checked)
+// @oblig after the operation bytes_left is exactly what the accounting rule says (observed with a symbolic shrink probe): a failing alloc returns Err with the requested size and changes nothing; tracked total never exceeds the budget; after dropping every handle the whole budget is available again and not one byte more (no leak, no double free)
+#[kani::proof]
+#[kani::unwind(3)]
+pub fn c13_tracker_step_alloc_via_handle_tracker() {
+    let o = tracker_step_case(1);
+    kani::cover!(o == 1, "alloc through handle.tracker() succeeds");
+    kani::cover!(o == 2, "refused");
+}
+
+// @prop C13
+// @tier quick
+// @unit jxl_grid::AllocTracker::{with_limit,alloc,expand_limit,shrink_limit} jxl_grid::AllocHandle::{drop,tracker}
+// @sym pre-state: any tracker state with budget L < 2^24 and two live handles of any sizes a (u8 elements) and b (i32 elements) that fit; then ONE operation: drop_handle (the six operations are six harnesses; each is a separate solver query), n < 2^20
+// @bound inductive step: arbitrary reachable pre-state (bytes_left + live handle sizes == budget) and one operation, so call histories of any length are covered; sizes below 2^25 (usize overflow of count*size for absurd counts is outside); unwind 3 covers the compare-exchange retry loop (unwinding assertion checked)
+// @oblig after the operation bytes_left is exactly what the accounting rule says (observed with a symbolic shrink probe): a failing alloc returns Err with the requested size and changes nothing; tracked total never exceeds the budget; after dropping every handle the whole budget is available again and not one byte more (no leak, no double free)
+#[kani::proof]
+#[kani::unwind(3)]
+pub fn c13_tracker_step_drop_handle() {
+    let o = tracker_step_case(2);
+    kani::cover!(o == 4, "handle dropped");
+}
+
+// @prop C13
+// @tier quick
+// @unit jxl_grid::AllocTracker::{with_limit,alloc,expand_limit,shrink_limit} jxl_grid::AllocHandle::{drop,tracker}
+// @sym pre-state: any tracker state with budget L < 2^24 and two live handles of any sizes a (u8 elements) and b (i32 elements) that fit; then ONE operation: expand_limit (the six operations are six harnesses; each is a separate solver query), n < 2^20
+// @bound inductive step: arbitrary reachable pre-state (bytes_left + live handle sizes == budget) and one operation, so call histories of any length are covered; sizes below 2^25 (usize overflow of count*size for absurd counts is outside); unwind 3 covers the compare-exchange retry loop (unwinding assertion checked)
+// @oblig after the operation bytes_left is exactly what the accounting rule says (observed with a symbolic shrink probe): a failing alloc returns Err with the requested size and changes nothing; tracked total never exceeds the budget; after dropping every handle the whole budget is available again and not one byte more (no leak, no double free)
+#[kani::proof]
+#[kani::unwind(3)]
+pub fn c13_tracker_step_expand_limit() {
+    let o = tracker_step_case(3);
+    kani::cover!(o == 4, "limit expanded");
+}
+
+// @prop C13
+// @tier quick
+// @unit jxl_grid::AllocTracker::{with_limit,alloc,expand_limit,shrink_limit} jxl_grid::AllocHandle::{drop,tracker}
+// @sym pre-state: any tracker state with budget L < 2^24 and two live handles of any sizes a (u8 elements) and b (i32 elements) that fit; then ONE operation: shrink_limit (the six operations are six harnesses; each is a separate solver query), n < 2^20
+// @bound inductive step: arbitrary reachable pre-state (bytes_left + live handle sizes == budget) and one operation, so call histories of any length are covered; sizes below 2^25 (usize overflow of count*size for absurd counts is outside); unwind 3 covers the compare-exchange retry loop (unwinding assertion checked)
+// @oblig after the operation bytes_left is exactly what the accounting rule says (observed with a symbolic shrink probe): a failing alloc returns Err with the requested size and changes nothing; tracked total never exceeds the budget; after dropping every handle the whole budget is available again and not one byte more (no leak, no double free)
+#[kani::proof]
+#[kani::unwind(3)]
+pub fn c13_tracker_step_shrink_limit() {
+    let o = tracker_step_case(4);
+    kani::cover!(o == 5, "shrink refused because of live allocations");
+    kani::cover!(o == 4, "shrink done or refused");
+}
+
+// @prop C13
+// @tier quick
+// @unit jxl_grid::AllocTracker::{with_limit,alloc,expand_limit,shrink_limit} jxl_grid::AllocHandle::{drop,tracker}
+// @sym pre-state: any tracker state with budget L < 2^24 and two live handles of any sizes a (u8 elements) and b (i32 elements) that fit; then ONE operation: alloc_u8 (the six operations are six harnesses; each is a separate solver query), n < 2^20
+// @bound inductive step: arbitrary reachable pre-state (bytes_left + live handle sizes == budget) and one operation, so call histories of any length are covered; sizes below 2^25 (usize overflow of count*size for absurd counts is outside); unwind 3 covers the compare-exchange retry loop (unwinding assertion checked)
+// @oblig after the operation bytes_left is exactly what the accounting rule says (observed with a symbolic shrink probe): a failing alloc returns Err with the requested size and changes nothing; tracked total never exceeds the budget; after dropping every handle the whole budget is available again and not one byte more (no leak, no double free)
+#[kani::proof]
+#[kani::unwind(3)]
+pub fn c13_tracker_step_alloc_u8() {
+    let o = tracker_step_case(5);
+    kani::cover!(o == 1, "alloc succeeds");
+    kani::cover!(o == 2, "alloc refused while some budget is left");
+}
+
+/// returns 1 = alloc ok, 2 = alloc refused with budget left, 3 = alloc refused (no budget), 4 = other op done, 5 = shrink refused although n <= budget
+fn tracker_step_case(op: u8) -> u8 {
+    let mut outcome = 4u8;
     let l = kani::any::<u32>() as usize;
     kani::assume(l < 1 << 24);
     let t = AllocTracker::with_limit(l);
     let a = kani::any::<u32>() as usize;
     let b = kani::any::<u32>() as usize;
     kani::assume(a < 1 << 20 && b < 1 << 20);
-    let Ok(h1) = t.alloc::<u8>(a) else { return };
-    let Ok(h2) = t.alloc::<i32>(b) else { return };
+    let Ok(h1) = t.alloc::<u8>(a) else { return 0 };
+    let Ok(h2) = t.alloc::<i32>(b) else { return 0 };
     let mut budget = l;
     let mut left = l - a - 4 * b;
     let mut h1 = Some(h1);
@@ -305,11 +371,12 @@ fn tracker_step_case(op: u8) {
                     c = 32 * n;
                     left -= c;
                     h3 = Some(h);
+                    outcome = 1;
                 }
                 Err(e) => {
                     assert!(32 * n > left);
                     assert!(e.bytes() == 32 * n);
-                    kani::cover!(left > 0, "alloc refused while some budget is left");
+                    outcome = if left > 0 { 2 } else { 3 };
                 }
             }
         }
@@ -322,9 +389,12 @@ fn tracker_step_case(op: u8) {
                     c = 4 * n;
                     left -= c;
                     h3 = Some(h);
-                    kani::cover!(true, "alloc through handle.tracker() succeeds");
+                    outcome = 1;
                 }
-                Err(_) => assert!(4 * n > left),
+                Err(_) => {
+                    assert!(4 * n > left);
+                    outcome = if left > 0 { 2 } else { 3 };
+                }
             }
         }
         2 => {
@@ -344,7 +414,7 @@ fn tracker_step_case(op: u8) {
                 budget -= n;
             } else {
                 assert!(r.is_err());
-                kani::cover!(n <= budget, "shrink refused because of live allocations");
+                outcome = if n <= budget { 5 } else { 4 };
             }
         }
         _ => {
@@ -355,10 +425,12 @@ fn tracker_step_case(op: u8) {
                     c = n;
                     left -= c;
                     h3 = Some(h);
+                    outcome = 1;
                 }
                 Err(e) => {
                     assert!(n > left);
                     assert!(e.bytes() == n);
+                    outcome = if left > 0 { 2 } else { 3 };
                 }
             }
         }
@@ -370,6 +442,7 @@ fn tracker_step_case(op: u8) {
     drop(h3);
     assert!(t.shrink_limit(budget).is_ok());
     assert!(t.shrink_limit(1).is_err());
+    outcome
 }
 
 // @prop C13 C08
@@ -381,7 +454,9 @@ fn tracker_step_case(op: u8) {
 #[kani::proof]
 #[kani::unwind(14)]
 pub fn c13_aligned_grid_charges_and_releases() {
-    aligned_grid_case(3, 2, false);
+    let o = aligned_grid_case(3, 2, false);
+    kani::cover!(o == 0, "allocation refused");
+    kani::cover!(o == 1, "grid allocated and released");
 }
 
 // @prop C13
@@ -393,7 +468,9 @@ pub fn c13_aligned_grid_charges_and_releases() {
 #[kani::proof]
 #[kani::unwind(9)]
 pub fn c13_aligned_grid_zero_area() {
-    aligned_grid_case(0, 1, false);
+    let o = aligned_grid_case(0, 1, false);
+    kani::cover!(o == 0, "allocation refused");
+    kani::cover!(o == 1, "grid allocated and released");
 }
 
 // @prop C13
@@ -405,10 +482,13 @@ pub fn c13_aligned_grid_zero_area() {
 #[kani::proof]
 #[kani::unwind(11)]
 pub fn c13_aligned_grid_try_clone() {
-    aligned_grid_case(2, 1, true);
+    let o = aligned_grid_case(2, 1, true);
+    kani::cover!(o == 2, "clone charged and released");
+    kani::cover!(o == 3, "clone refused, original still alive");
 }
 
-fn aligned_grid_case(w: usize, h: usize, with_clone: bool) {
+/// returns 0 = refused, 1 = allocated and released, 2 = cloned, 3 = clone refused
+fn aligned_grid_case(w: usize, h: usize, with_clone: bool) -> u8 {
     let limit = kani::any::<u16>() as usize;
     kani::assume(limit <= 4096);
     let tracker = AllocTracker::with_limit(limit);
@@ -419,40 +499,33 @@ fn aligned_grid_case(w: usize, h: usize, with_clone: bool) {
             assert!(need > limit);
             assert!(e.bytes() == need);
             assert!(tracker.shrink_limit(limit).is_ok());
-            kani::cover!(limit > 0, "allocation refused under a non-zero limit");
+            0
         }
         Ok(grid) => {
             assert!(need <= limit);
             // exactly `need` bytes are charged
             assert!(tracker.shrink_limit(limit - need + 1).is_err());
-            if !with_clone {
-                drop(grid);
-                assert!(tracker.shrink_limit(limit).is_ok());
-                assert!(tracker.shrink_limit(1).is_err());
-                kani::cover!(true, "grid allocated and released");
-                return;
+            let mut out = 1;
+            if with_clone {
+                let c = grid.try_clone();
+                match c {
+                    Ok(c2) => {
+                        assert!(2 * need <= limit);
+                        assert!(tracker.shrink_limit(limit - 2 * need + 1).is_err());
+                        drop(c2);
+                        out = 2;
+                    }
+                    Err(_) => {
+                        assert!(2 * need > limit);
+                        out = 3;
+                    }
+                }
+                assert!(tracker.shrink_limit(limit - need + 1).is_err());
             }
-            clone_part(grid, &tracker, limit, need);
+            drop(grid);
+            assert!(tracker.shrink_limit(limit).is_ok());
+            assert!(tracker.shrink_limit(1).is_err());
+            out
         }
     }
-}
-
-fn clone_part(grid: AlignedGrid<i32>, tracker: &AllocTracker, limit: usize, need: usize) {
-    let c = grid.try_clone();
-    match c {
-        Ok(c2) => {
-            assert!(2 * need <= limit);
-            assert!(tracker.shrink_limit(limit - 2 * need + 1).is_err());
-            drop(c2);
-        }
-        Err(_) => {
-            assert!(2 * need > limit);
-            kani::cover!(true, "clone refused, original still alive");
-        }
-    }
-    assert!(tracker.shrink_limit(limit - need + 1).is_err());
-    drop(grid);
-    assert!(tracker.shrink_limit(limit).is_ok());
-    assert!(tracker.shrink_limit(1).is_err());
-    kani::cover!(true, "grid allocated, cloned or refused, and released");
 }
